@@ -226,3 +226,9 @@ func IsReleasedPtr(p any) bool { return false }
 // Redirect replaces calls of the named function (fully qualified, as printed by go/ssa) by fn, which must
 // have the same signature (receiver first). Model-level only: natively a no-op.
 func Redirect(name string, fn any) {}
+
+// TimerPending reports whether a time.AfterFunc timer is armed and has not fired (ghost; natively unknown).
+func TimerPending(t any) bool { return false }
+
+// Quiesce lets every other goroutine run until none of them can make progress (timers excluded).
+func Quiesce() {}
